@@ -238,6 +238,8 @@ class HEMModel(LevyModel):
 
 class ExponentialOfHEMModel(ExponentialOfLevyModel):
     def __init__(self, spot: float, r: float, d: float, parameters: HEMParameters):
+        if parameters.eta1 <= 1:
+            raise ValueError("E[exp(L_1)] is finite only for eta1 > 1")
         hem_model = HEMModel(parameters=parameters)
         super().__init__(spot=spot, r=r, d=d, levy_model=hem_model)
         self._process_drift = (
